@@ -246,17 +246,17 @@ let rec collect_nodes (t : node) (acc : ((int * int) * string) list) : ((int * i
                         (hex_of_bytes m.hs) (key_str (node_meta l)) (key_str (node_meta r))) :: acc in
         collect_nodes r (collect_nodes l acc)
 
+(* the expected raw store comes from the proved model (Store.expected_store, StoreFacts) *)
 let expected_nodes (st : mstate) : string =
-  let acc = List.fold_left (fun acc (_, r) -> match r with Some t -> collect_nodes t acc | None -> acc) [] st.forest in
-  let acc = List.fold_left (fun acc (v, r) ->
-      let v = int_of_z v in
-      match r with
-      | None -> ((v, 1), "E") :: acc
-      | Some t ->
-          let m = node_meta t in
-          if int_of_z m.ver = v && int_of_z m.nonce = 1 then acc else ((v, 1), "R:" ^ key_str m) :: acc) acc st.forest in
-  let sorted = List.stable_sort (fun (a, _) (b, _) -> compare a b) acc in
-  "an[" ^ String.concat ";" (List.map (fun ((v, n), d) -> Printf.sprintf "%d.%d=%s" v n d) sorted) ^ "]other=0"
+  let kstr (v, n) = Printf.sprintf "%d.%d" (int_of_z v) (int_of_z n) in
+  let show_entry (e : entry) : string =
+    match e with
+    | EEmpty -> "E"
+    | ERef k -> "R:" ^ kstr k
+    | ENode (SLeaf (k, v)) -> "N:L," ^ hex_of_bytes k ^ "," ^ hex_of_bytes v
+    | ENode (SInner (k, h, sz, hash, l, r)) ->
+        Printf.sprintf "N:I,%d,%d,%s,%s,%s,%s" (int_of_z h) (int_of_z sz) (hex_of_bytes k) (hex_of_bytes hash) (kstr l) (kstr r) in
+  "an[" ^ String.concat ";" (List.map (fun (k, e) -> kstr k ^ "=" ^ show_entry e) (expected_store st.forest)) ^ "]other=0"
 
 let rec node_elems (t : node) (acc : (bytes * bytes) list) : (bytes * bytes) list =
   match t with
@@ -293,13 +293,13 @@ let expected_changes (st : mstate) (a : int) (b : int) : string =
         match List.assoc_opt v forest with
         | None -> ()
         | Some r ->
-            let cur = (match r with Some t -> leaves_with_ver t [] | None -> []) in
-            let prev = (match List.assoc_opt (v - 1) forest with Some (Some t) -> leaves_with_ver t [] | _ -> []) in
-            let sets = List.filter (fun (_, _, ver) -> ver > v - 1) cur in
-            let dels = List.filter (fun (k, _, _) -> not (List.exists (fun (k2, _, _) -> cmp_bytes k k2 = 0) cur)) prev in
-            let items = List.map (fun (k, x, _) -> (k, hex_of_bytes k ^ "=" ^ hex_of_bytes x)) sets
-                        @ List.map (fun (k, _, _) -> (k, hex_of_bytes k ^ "-")) dels in
-            let items = List.stable_sort (fun (k1, _) (k2, _) -> cmp_bytes k1 k2) items in
+            (* the change set comes from the proved model of extractStateChanges (Diff.extract) *)
+            let prev = (match List.assoc_opt (v - 1) forest with Some p -> p | None -> None) in
+            let items =
+              (match extract (z_of_int (v - 1)) prev r with
+               | Some cs -> List.map (function CSet (k, x) -> ((), hex_of_bytes k ^ "=" ^ hex_of_bytes x)
+                                              | CDel k -> ((), hex_of_bytes k ^ "-")) cs
+               | None -> [ ((), "MODEL-OUT-OF-FUEL") ]) in
             (* the property speaks about versions whose predecessor is retained *)
             if v = first then parts := (string_of_int v ^ ":?") :: !parts
             else parts := (string_of_int v ^ ":" ^ String.concat "," (List.map snd items)) :: !parts
@@ -479,6 +479,26 @@ let make_m1 (params : string list) : machine =
                   let items = (match r with Some n -> List.rev (post n []) | None -> []) in
                   "ex[" ^ String.concat ";" items ^ "]"
             end
+        | [ "r"; t; "proofbytes"; k ] ->
+            (* the marshalled ICS-23 proof, byte for byte, from the proved model (Ics23.get_proof) *)
+            let tree, wv =
+              (if t = "w" then (Some !st.root, (match snd (m_step !st OWorkingVersion) with XInt z -> z | _ -> Z0))
+               else (let v = int_of_string (String.sub t 1 (String.length t - 1)) in
+                     (List.assoc_opt v (List.map (fun (w, r) -> (int_of_z w, r)) !st.forest), z_of_int (v + 1)))) in
+            (match tree with
+             | None -> "err"
+             | Some tr ->
+                 (match get_proof_sha wv tr (bytes_of_tok k) with
+                  | Some p -> "pb:" ^ hex_of_bytes (marshal_commitment_proof p)
+                  | None -> "err"))
+        | [ "wsave" ] ->
+            (* the order of the physical writes of a commit: fast index / label first, then the new
+               nodes in post order with the root last (Store.commit_ops, used by CrashFacts) *)
+            let ops = commit_ops_sha !fast !st in
+            let nodes = List.filter_map (function WSet (KNode (v, n), _) -> Some (Printf.sprintf "%d.%d" (int_of_z v) (int_of_z n)) | _ -> None) ops in
+            let s', x = m_step !st OSave in
+            st := s';
+            "(ws[" ^ String.concat "," nodes ^ "]," ^ show_out x ^ ")"
         | [ "r"; t; "gproof"; k ] ->
             let tg = parse_target t in
             let q r = snd (m_step !st (ORead (tg, r))) in
